@@ -71,10 +71,10 @@ def run_shard(pid, tier, seed, shard, nshards, budget_s, out):
     try:
         from . import parcases
 
-        if pid in parcases.BY_PROPERTY and (tier == "thorough" or shard < 4):
+        if pid in parcases.BY_PROPERTY and (tier == "thorough" or shard < 6):
             # independent objects used from several threads at once (deterministic interleavings at statement /
             # instruction granularity inside every auditok module): results must equal the single-threaded ones
-            parcases.run(ctx, pid, 2 if tier == "quick" else 30)
+            parcases.run(ctx, pid, 3 if tier == "quick" else 30)
         mod.run_shard(ctx)
     except Exception as exc:
         # The harness could not digest what the code under test produced (e.g. a token whose indices lie outside the
